@@ -1398,3 +1398,366 @@ theorem parseBlocks_geo {P : InlP} (hP : InlSpec P) {cfg : Cfg} {src : List Char
 
 
 end MdIt.Block
+
+namespace MdIt.Pipeline
+open MdIt.Block (Bd)
+
+/-! # Part B: the document tree -/
+
+/-- a tree of source ranges -/
+structure RT where
+  range : Option (Nat × Nat)
+  kids : List RT
+  deriving Repr
+
+def Node.isBlk (n : Node) : Bool :=
+  match n.kind with
+  | .blk _ => true
+  | .inl _ => false
+
+mutual
+/-- the BLOCK skeleton of a document node: its range, and the skeletons of its block-level children,
+    in order (inline-level children are skipped) -/
+def bskel : Node → RT
+  | ⟨_, r, _, cs⟩ => ⟨r, bskelList cs⟩
+def bskelList : List Node → List RT
+  | [] => []
+  | c :: cs => if c.isBlk then bskel c :: bskelList cs else bskelList cs
+end
+
+def isInlKind : Block.Kind → Bool
+  | .inlineRoot _ _ => true
+  | _ => false
+
+mutual
+/-- the same of a node of the block pass: placeholders are skipped -/
+def bskelB : Block.BNode → RT
+  | ⟨_, r, cs⟩ => ⟨r, bskelBList cs⟩
+def bskelBList : List Block.BNode → List RT
+  | [] => []
+  | c :: cs => if isInlKind c.kind then bskelBList cs else bskelB c :: bskelBList cs
+end
+
+theorem bskel_eq (n : Node) : bskel n = ⟨n.range, bskelList n.children⟩ := by cases n; simp [bskel]
+theorem bskelB_eq (n : Block.BNode) : bskelB n = ⟨n.range, bskelBList n.children⟩ := by cases n; simp [bskelB]
+
+theorem bskelList_append (a b : List Node) : bskelList (a ++ b) = bskelList a ++ bskelList b := by
+  induction a with
+  | nil => simp [bskelList]
+  | cons c r ih => simp only [List.cons_append, bskelList]; split <;> simp [ih]
+
+mutual
+theorem ofInline_isBlk (n : Inline.Node) : (ofInline n).isBlk = false := by
+  cases n; simp [ofInline, Node.isBlk]
+theorem bskelList_ofInlineList (cs : List Inline.Node) : bskelList (ofInlineList cs) = [] := by
+  match cs with
+  | [] => simp [ofInlineList, bskelList]
+  | c :: r =>
+    simp only [ofInlineList, bskelList, ofInline_isBlk]
+    exact bskelList_ofInlineList r
+end
+
+/-! ## the splice walk -/
+
+mutual
+theorem spliceNode_bskel {icfg : Inline.Cfg} (b : Block.BNode) (t : Node)
+    (h : spliceNode icfg b = .ok t) : bskel t = bskelB b := by
+  match b with
+  | ⟨k, r, cs⟩ =>
+    simp only [spliceNode] at h
+    split at h
+    · cases h
+    · rename_i cs' hcs
+      cases h
+      simp only [bskel, bskelB]
+      rw [spliceList_bskel cs cs' hcs]
+theorem spliceList_bskel {icfg : Inline.Cfg} (cs : List Block.BNode) (out : List Node)
+    (h : spliceList icfg cs = .ok out) : bskelList out = bskelBList cs := by
+  match cs with
+  | [] => simp [spliceList] at h; subst h; simp [bskelList, bskelBList]
+  | c :: rest =>
+    simp only [spliceList] at h
+    split at h
+    · rename_i content mapping hk
+      split at h
+      · cases h
+      · split at h
+        · cases h
+        · rename_i ns _ rest' hrest
+          cases h
+          rw [bskelList_append, bskelList_ofInlineList, List.nil_append, spliceList_bskel rest rest' hrest]
+          simp [bskelBList, hk, isInlKind]
+    · rename_i hk
+      split at h
+      · cases h
+      · rename_i c' hc'
+        split at h
+        · cases h
+        · rename_i rest' hrest
+          cases h
+          have hck : c'.isBlk = true := by
+            match c, hc' with
+            | ⟨k, r, cs⟩, hc' =>
+              simp only [spliceNode] at hc'
+              split at hc'
+              · cases hc'
+              · cases hc'; rfl
+          have hnk : isInlKind c.kind = false := by
+            cases hkk : c.kind <;> simp [isInlKind]
+            exact hk _ _ hkk
+          simp only [bskelList, bskelBList, hck, hnk, if_true, Bool.false_eq_true, if_false]
+          rw [spliceNode_bskel c c' hc', spliceList_bskel rest rest' hrest]
+end
+
+
+/-! ## the join pass -/
+
+theorem isBlk_of_isText {n : Node} (h : n.isText = true) : n.isBlk = false := by
+  unfold Node.isText at h
+  unfold Node.isBlk
+  split at h
+  · next heq => rw [heq]
+  · cases h
+
+theorem bskelList_cons_inl {c : Node} (h : c.isBlk = false) (r : List Node) :
+    bskelList (c :: r) = bskelList r := by simp [bskelList, h]
+
+theorem bskelList_mergeLoop (cur : Node) (rest : List Node) :
+    bskelList (mergeLoop cur rest) = bskelList (cur :: rest) := by
+  induction rest generalizing cur with
+  | nil => simp [mergeLoop]
+  | cons nxt rest ih =>
+    simp only [mergeLoop]
+    split
+    · next htt =>
+      simp only [Bool.and_eq_true] at htt
+      have h1 : (emptied nxt).isBlk = false := rfl
+      have h2 : (merged cur nxt).isBlk = false := rfl
+      rw [bskelList_cons_inl h1, ih, bskelList_cons_inl h2, bskelList_cons_inl (isBlk_of_isText htt.1),
+        bskelList_cons_inl (isBlk_of_isText htt.2)]
+    · simp only [bskelList, ih]
+
+theorem markerToText_blk (c : Node) (h : c.isBlk = true) : markerToText c = c := by
+  unfold markerToText
+  split
+  · next heq => unfold Node.isBlk at h; rw [heq] at h; cases h
+  · rfl
+
+theorem markerToText_isBlk (c : Node) : (markerToText c).isBlk = c.isBlk := by
+  unfold markerToText
+  split
+  · next heq => unfold Node.isBlk; rw [heq]
+  · rfl
+
+theorem bskelList_pass1 (cs : List Node) : bskelList (pass1 cs) = bskelList cs := by
+  induction cs with
+  | nil => rfl
+  | cons c r ih =>
+    simp only [pass1, List.map_cons, bskelList, markerToText_isBlk] at ih ⊢
+    split
+    · next hb => rw [markerToText_blk c hb, ih]
+    · exact ih
+
+theorem bskelList_filter_keep (l : List Node) : bskelList (l.filter keep) = bskelList l := by
+  induction l with
+  | nil => rfl
+  | cons c r ih =>
+    simp only [List.filter_cons]
+    split
+    · simp only [bskelList, ih]
+    · next hk =>
+      have : c.isText = true := by
+        unfold keep at hk
+        cases ht : c.isText with
+        | true => rfl
+        | false => simp [ht] at hk
+      rw [bskelList_cons_inl (isBlk_of_isText this), ih]
+
+theorem bskelList_fragmentsJoin (cs : List Node) : bskelList (fragmentsJoin cs) = bskelList cs := by
+  unfold fragmentsJoin
+  rw [bskelList_filter_keep, ← bskelList_pass1 cs]
+  cases pass1 cs with
+  | nil => rfl
+  | cons c r => simp only [mergeAll]; exact bskelList_mergeLoop c r
+
+theorem joinNode_isBlk (n : Node) : (joinNode n).isBlk = n.isBlk := by
+  unfold Node.isBlk; rw [joinNode_kind]
+
+theorem bskelList_map_join (l : List Node) (h : ∀ c ∈ l, bskel (joinNode c) = bskel c) :
+    bskelList (l.map joinNode) = bskelList l := by
+  induction l with
+  | nil => rfl
+  | cons c r ih =>
+    simp only [List.map_cons, bskelList, joinNode_isBlk]
+    rw [h c (by simp), ih (fun x hx => h x (List.mem_cons_of_mem _ hx))]
+
+theorem joinNode_bskel_aux (k : Nat) : ∀ n : Node, nsize n ≤ k → bskel (joinNode n) = bskel n := by
+  induction k with
+  | zero => intro n hn; have := nsize_eq n; omega
+  | succ k ih =>
+    intro n hn
+    rw [joinNode_eq, bskel_eq, bskel_eq n]
+    simp only
+    rw [joinList_eq_map, bskelList_map_join, bskelList_fragmentsJoin]
+    intro c hc
+    apply ih
+    have h1 := nsize_le_of_mem hc
+    have h2 := nsizeList_fragmentsJoin_le n.children
+    have h3 := nsize_eq n
+    omega
+
+theorem joinNode_bskel (n : Node) : bskel (joinNode n) = bskel n := joinNode_bskel_aux _ n (Nat.le_refl _)
+
+/-! ## the sourcepos pass -/
+
+mutual
+theorem sourceposNode_bskel {src : List Char} {marks : List SourceMap.Mark} (t t' : Node)
+    (h : sourceposNode src marks t = .ok t') : bskel t' = bskel t ∧ t'.isBlk = t.isBlk := by
+  match t with
+  | ⟨k, r, a, cs⟩ =>
+    simp only [sourceposNode] at h
+    split at h
+    · cases h
+    · split at h
+      · cases h
+      · rename_i cs' hcs
+        cases h
+        simp only [bskel]
+        rw [sourceposList_bskel cs cs' hcs]
+        exact ⟨rfl, rfl⟩
+theorem sourceposList_bskel {src : List Char} {marks : List SourceMap.Mark} (cs cs' : List Node)
+    (h : sourceposList src marks cs = .ok cs') : bskelList cs' = bskelList cs := by
+  match cs with
+  | [] => simp [sourceposList] at h; subst h; rfl
+  | c :: r =>
+    simp only [sourceposList] at h
+    split at h
+    · cases h
+    · rename_i c' hc
+      split at h
+      · cases h
+      · rename_i r' hr
+        cases h
+        obtain ⟨h1, h2⟩ := sourceposNode_bskel c c' hc
+        simp only [bskelList, h1, h2, sourceposList_bskel r r' hr]
+end
+
+
+/-! ## ranged skeletons -/
+
+/-- consecutive ranges inside `[lo, hi]`: every tree has a range `(a, b)`, `a ≤ b`, and starts at
+    or behind the end of its left neighbour -/
+def OrderedRT : Nat → Nat → List RT → Prop
+  | lo, hi, [] => lo ≤ hi
+  | lo, hi, n :: rest => ∃ a b, n.range = some (a, b) ∧ lo ≤ a ∧ a ≤ b ∧ OrderedRT b hi rest
+
+/-- C05 on a tree of ranges: every node has a range `(a, b)` with `a ≤ b ≤ |src|`, both on character
+    boundaries of `src`; the ranges of its children lie inside `[a, b]`, in order, without overlap;
+    recursively -/
+inductive RangedRT (src : List Char) : RT → Prop
+  | mk (n : RT) (a b : Nat) : n.range = some (a, b) → a ≤ b → b ≤ Lines.byteLen src →
+    Lines.onBoundary src a = true → Lines.onBoundary src b = true → OrderedRT a b n.kids →
+    (∀ c ∈ n.kids, RangedRT src c) → RangedRT src n
+
+theorem OrderedRT.widen {lo hi lo' hi' : Nat} {l : List RT} (h : OrderedRT lo hi l)
+    (h1 : lo' ≤ lo) (h2 : hi ≤ hi') : OrderedRT lo' hi' l := by
+  induction l generalizing lo lo' with
+  | nil => simp only [OrderedRT] at h ⊢; omega
+  | cons x r ih =>
+    obtain ⟨a, b, q1, q2, q3, q4⟩ := h
+    exact ⟨a, b, q1, by omega, q3, ih q4 (Nat.le_refl _)⟩
+
+theorem isInlKind_iff {k : Block.Kind} : isInlKind k = true ↔ ∃ c m, k = .inlineRoot c m := by
+  cases k <;> simp [isInlKind]
+
+mutual
+theorem rangedRT_node {P : Block.InlP} {src : List Char} (b : Block.BNode) (h : Block.RangedB P src b)
+    (a z : Nat) (hr : b.range = some (a, z)) : RangedRT src (bskelB b) := by
+  match b with
+  | ⟨k, r, cs⟩ =>
+    obtain ⟨h1, h2, h3, h4⟩ := h.at a z hr
+    obtain ⟨l1, l2⟩ := rangedRT_list cs a z h4 h.child
+    exact .mk _ a z (by simp only [bskelB]; exact hr) h1 h3.le h2.onBoundary h3.onBoundary
+      (by simp only [bskelB]; exact l1) (by simp only [bskelB]; exact l2)
+theorem rangedRT_list {P : Block.InlP} {src : List Char} (cs : List Block.BNode) (lo hi : Nat)
+    (ho : Block.OrderedB P lo hi cs) (hd : ∀ c ∈ cs, Block.RangedB P src c) :
+    OrderedRT lo hi (bskelBList cs) ∧ ∀ x ∈ bskelBList cs, RangedRT src x := by
+  match cs with
+  | [] => exact ⟨ho, by simp [bskelBList]⟩
+  | c :: rest =>
+    obtain ⟨a, b, hsp, h1, h2, h3⟩ := ho
+    obtain ⟨i1, i2⟩ := rangedRT_list rest b hi h3 (fun x hx => hd x (List.mem_cons_of_mem _ hx))
+    simp only [bskelBList]
+    split
+    · exact ⟨i1.widen (by omega) (Nat.le_refl _), i2⟩
+    · next hk =>
+      have hrange := Block.spanB_kind hsp (fun c' m hc => hk (isInlKind_iff.mpr ⟨c', m, hc⟩))
+      have hn := rangedRT_node c (hd c (by simp)) a b hrange
+      refine ⟨⟨a, b, by rw [bskelB_eq]; exact hrange, h1, h2, i1⟩, ?_⟩
+      intro x hx
+      rcases List.mem_cons.mp hx with rfl | hx
+      · exact hn
+      · exact i2 x hx
+end
+
+/-! ## the document theorems -/
+
+/-- the block skeleton of the parsed tree is the skeleton of the tree of the block pass: the splice
+    walk, the join pass and the sourcepos pass neither move, add nor drop a block node, nor touch a
+    block range -/
+theorem doc_block_skeleton {cfg : DocCfg} {src : List Char} {t : Node} (h : parseDoc cfg src = .ok t) :
+    ∃ root refs, Block.parseBlocks cfg.blockCfg src = .ok (root, refs) ∧ bskel t = bskelB root := by
+  unfold parseDoc at h
+  split at h
+  · cases h
+  · rename_i root refs hb
+    refine ⟨root, refs, hb, ?_⟩
+    unfold afterBlocks at h
+    split at h
+    · cases h
+    · rename_i t0 hs
+      have h0 := spliceNode_bskel root t0 hs
+      have h1 : bskel (if cfg.hasJoin = true then joinNode t0 else t0) = bskelB root := by
+        split
+        · rw [joinNode_bskel, h0]
+        · exact h0
+      simp only at h
+      split at h
+      · rw [(sourceposNode_bskel _ _ h).1, h1]
+      · cases h; exact h1
+
+/-- **`doc_root_range`.**  The root of every parsed tree carries the range `(0, |src|)`. -/
+theorem doc_root_range (cfg : DocCfg) (src : List Char) (t : Node) (h : parseDoc cfg src = .ok t) :
+    t.range = some (0, Lines.byteLen src) := by
+  obtain ⟨root, refs, hb, hsk⟩ := doc_block_skeleton h
+  have h1 : root.range = some (0, Lines.byteLen src) := by
+    unfold Block.parseBlocks at hb
+    split at hb
+    · cases hb
+    · cases hb; rfl
+  rw [bskel_eq, bskelB_eq] at hsk
+  have := congrArg RT.range hsk
+  simp only at this
+  rw [this, h1]
+
+/-- the trivial claim about placeholders (the block-level theorem needs none) -/
+def PTriv : Block.InlP := fun _ _ _ _ => True
+
+theorem inlSpec_triv : Block.InlSpec PTriv :=
+  ⟨fun _ _ _ _ _ _ _ _ _ _ _ _ => trivial, fun _ _ _ _ _ _ _ _ _ _ => trivial, fun _ _ _ _ _ _ => trivial⟩
+
+/-- **`doc_block_ranges`.**  In the tree `parseDoc` returns, every BLOCK node carries a range `(a, b)`
+    with `a ≤ b ≤ |src|` on character boundaries of the source; the ranges of its block-level
+    children lie inside `[a, b]`, each starting at or behind the end of the previous one; at every
+    depth.  (`bskel t` is the tree of the block nodes of `t` with their ranges; inline-level nodes are
+    the subject of `doc_inline_ranges`.)  The size bound is the one the `i32` fields
+    `indent_nonspace` / `blk_indent` of the Rust force (`Lines.usizeAsI32` is exact below it). -/
+theorem doc_block_ranges (cfg : DocCfg) (src : List Char) (t : Node)
+    (hsmall : 4 * Lines.byteLen src + 8 < 2147483648) (h : parseDoc cfg src = .ok t) :
+    RangedRT src (bskel t) := by
+  obtain ⟨root, refs, hb, hsk⟩ := doc_block_skeleton h
+  obtain ⟨hr, hg⟩ := Block.parseBlocks_geo inlSpec_triv hsmall hb
+  rw [hsk]
+  exact rangedRT_node root hg _ _ hr
+
+end MdIt.Pipeline
